@@ -8,27 +8,36 @@ IMPL_MODULE = "files_impl"
 RULE = ("file names assembled per the binary-/source-distribution specs from (structured project name, PEP 440 version incl. epochs and local labels, "
         "optional build tag with suffix, 1-3 dotted interpreter / ABI / platform parts in mixed case), structurally damaged variants of them "
         "(extension, number of dash parts, unescaped name, build tag, version), a template sweep over small component pools, tag strings and "
-        "case variants of tag triples; non-trivial = the parser returned a value; distinct by input text")
+        "case variants of tag triples; non-ASCII cased letters (U+03A3 included), non-ASCII decimal digits and letters in name, build and tag "
+        "positions; a per-code-point sweep (samples of 20 Unicode general categories + the boundaries of every range of the generated \\w, \\d "
+        "and Final_Sigma tables) in name / build / tag positions; non-trivial = the parser returned a value; distinct by input text")
 ASSUMPTIONS = [
-    "non-ASCII text: the model carries finite tables for str.lower (U+0130, U+212A), \\w and \\d/int() restricted to the pool of non-ASCII code "
-    "points the generators use (gen_names.NONASCII); other non-ASCII code points are neither generated nor claimed",
-    "build numbers beyond CPython's int/str digit limit are outside the generated domain (known finding D10, reported under C11)",
-    "round-trip theorem domain: project names over ASCII letters/digits and -_. ; build suffix without '-' and newline and not starting with a digit; "
-    "tag parts without '-' and '.' (the encoding is not injective outside it)",
+    "non-ASCII text: str.lower(), \\w and \\d / int() are tables generated from the running interpreter (coq/Gen/LowerTable.v, WordTable.v) and "
+    "re-validated against it for every code point on every run (law.n.lowertable under C13, law.f.tables here); lone surrogates are not generated",
+    "build numbers beyond CPython's int/str digit limit are outside the generated domain (known finding D10, reported under C11; the wheel build "
+    "call site has the matcher match_d10_build)",
+    "round-trip theorem domain: project names over ASCII letters/digits and -_. ; build = non-empty \\d run + suffix without '-' that does not start "
+    "with a \\d digit (Unicode decimal digits count: \\d is not ASCII-only); tag parts without '-' and '.' (the encoding is not injective outside it)",
+    "'non-escaped project name' is read as the check the code performs ('__' or a character outside \\w and '.', theorem C14_name_check_exact): "
+    "'.', upper case (allowed by the spec for consumers), but also the empty name and names of separators only pass it; sdist names are not "
+    "checked at all (candidate findings, matchers match_name_empty / match_sdist_name; generated only once registered in known_findings.txt)",
 ]
 TRUSTED_EXTRA = ["Version(): the version model of C01/C02 (SpecModel.Version) is reused unchanged for the version part"]
 
 PYS = ["py3", "py2", "cp312", "PY3", "pp39", "cp39", "Cp313", "py30"]
 ABIS = ["none", "abi3", "cp312", "CP312M", "cp313t", "None", "pypy39_pp73"]
 PLATS = ["any", "linux_x86_64", "manylinux_2_17_x86_64", "win32", "macosx_10_9_universal2", "Any", "WIN_AMD64", "manylinux2014_aarch64"]
-SUFFIXES = ["", "", "", "a", "_x", "b2", "abc", ".post", "_", "a.b", "+x", "ſ", "İ"]
+SUFFIXES = ["", "", "", "a", "_x", "b2", "abc", ".post", "_", "a.b", "+x", "ſ", "İ", "É", "aΣ", "x१", "²"]
+UNI_PARTS = ["İx", "K", "é", "a١", "É", "Ωmega", "aΣ", "Σa", "aΣb", "ǅ", "ẞ", "中", "१", "a'Σ", "Å"]
+UNI_BUILDS = ["१", "7१x", "１2b", "0१", "٣a", "1²", "𝟗", "7𝟗x", "१É"]
+UNI_NAMES = ["É", "éa", "aΣ", "Σa", "aΣ.b", "中文", "a१", "Ωmega_x", "ǅ.x", "aΣ_Σ", "x.ẞ", "K", "İ"]
 
 
 def rand_parts(rng, pool, nonascii=True):
     n = rng.choice([1, 1, 1, 2, 2, 3])
     out = rng.sample(pool, n)
     if rng.random() < 0.1: out.append(out[0].swapcase())          # duplicate up to case: the set collapses it
-    if nonascii and rng.random() < 0.04: out.append(rng.choice(["İx", "K", "é", "a١"]))
+    if nonascii and rng.random() < 0.06: out.append(rng.choice(UNI_PARTS))
     return ".".join(out)
 
 
@@ -42,11 +51,24 @@ def rand_version_text(rng):
 
 def rand_build(rng):
     if rng.random() < 0.5: return ""
-    return rng.choice(["0", "1", "12", "7", "007", "10", "99999999999999999999"]) + rng.choice(SUFFIXES)
+    if rng.random() < 0.05: return rng.choice(UNI_BUILDS)
+    return rng.choice(["0", "1", "12", "7", "007", "10", "99999999999999999999", "000", "0012", "9" * 60]) + rng.choice(SUFFIXES)
 
 
 def rand_wheel(rng):
-    return [g.rand_name(rng, valid_p=0.97), rand_version_text(rng), rand_build(rng), rand_parts(rng, PYS), rand_parts(rng, ABIS), rand_parts(rng, PLATS)]
+    name = g.rand_name(rng, valid_p=0.97)
+    if rng.random() < 0.05: name = rng.choice(UNI_NAMES) if rng.random() < 0.5 else name + rng.choice(["", "_", "."]) + rng.choice(UNI_NAMES)
+    return [name, rand_version_text(rng), rand_build(rng), rand_parts(rng, PYS), rand_parts(rng, ABIS), rand_parts(rng, PLATS)]
+
+
+def law_domain(c):
+    """Domain on which the round-trip law is stated: a name of ASCII alphanumerics, separators and the non-ASCII letters/digits of the pools
+    (all matched by \\w); a build that is an ASCII digit run followed by a suffix not starting with any \\d digit."""
+    import unicodedata
+    if not all((ch.isascii() and (ch.isalnum() or ch in "-_.")) or (ch in "".join(UNI_NAMES) and ch != "İ") for ch in c[0]) or not c[0]: return False
+    b = c[2].lstrip("0123456789")
+    if c[2] and (b == c[2] or (b and unicodedata.category(b[0]) == "Nd")): return False
+    return True
 
 
 def assemble(c, lower):
@@ -97,7 +119,7 @@ def streams(rng, tier):
         fn = assemble(c, lower)
         out.append(Case("wheel", "f.wheel", [fn]))
         # the law is stated on its domain: ASCII valid name, suffix without newline/dash and not starting with a digit, tag parts non-empty
-        if all(ch.isascii() and (ch.isalnum() or ch in "-_.") for ch in c[0]) and "ſ" not in c[2] and "İ" not in c[2]:
+        if law_domain(c):
             out.append(Case("law-wheel", "law.f.wheel", c + ["T" if lower else "F"], kind="law"))
         r = rng.random()
         if r < 0.35:
@@ -110,7 +132,7 @@ def streams(rng, tier):
             ext = rng.choice([".tar.gz", ".zip"])
             sn = g_escape(c[0], lower) + "-" + c[1] + ext
             out.append(Case("sdist", "f.sdist", [sn]))
-            if all(ch.isascii() for ch in c[0]): out.append(Case("law-sdist", "law.f.sdist", [c[0], c[1], ext, "T" if lower else "F"], kind="law"))
+            out.append(Case("law-sdist", "law.f.sdist", [c[0], c[1], ext, "T" if lower else "F"], kind="law"))
             r = rng.random()
             if r < 0.3:
                 out.append(Case("sdist-mutated", "f.sdist", [g.mutate(rng, sn, chars=g.MUT + ["-", ".zip", ".tar.gz", "1"])]))
@@ -124,13 +146,16 @@ def streams(rng, tier):
                 out.append(Case("sdist", "f.sdist", [c[0] + "-" + c[1] + ext]))      # legacy: name not escaped (may contain dashes)
         if rng.random() < 0.3:
             t = "-".join(c[3:6])
-            if rng.random() < 0.3: t = g.mutate(rng, t, chars=list("-.-.aZ_ ") + ["İ", "K", "\n"])
+            if rng.random() < 0.3: t = g.mutate(rng, t, chars=list("-.-.aZ_ ") + ["İ", "K", "\n", "É", "Σ", "aΣ", "'", "ẞ"])
             out.append(Case("tags", "f.tag", [t])); out.append(Case("law-tags", "law.f.tags", [t], kind="law"))
         if rng.random() < 0.2:
             a = [rng.choice(PYS), rng.choice(ABIS), rng.choice(PLATS)]
             b2 = [x.upper() if rng.random() < 0.5 else x.lower() for x in a] if rng.random() < 0.7 else [rng.choice(PYS), a[1], a[2]]
             if rng.random() < 0.1: a[2] += rng.choice(["İ", "K", "é", "-", "."])
+            if rng.random() < 0.15:
+                u = rng.choice(UNI_PARTS); k = rng.randrange(3); a[k] += u; b2[k] += rng.choice([u, u.lower(), u.upper(), u.swapcase()])
             out.append(Case("tag-eq", "f.tageq", a + b2))
+            if all("-" not in x and "." not in x for x in a): out.append(Case("law-tagstr", "law.f.tagstr", a, kind="law"))
     # template sweep: every combination of small component pools (a sample of it in the quick tier)
     NAMES = ["", "a", "A_b", "a__b", "a.b", "a b", "é", "a_", "_", "a\n"]
     VERS = ["1", "1.0", "x", "", "1_0", " 1", "1.0+a_b", "1!0"]
@@ -161,6 +186,40 @@ def streams(rng, tier):
         out.append(Case("char-sweep", "f.sdist", [ch + "-1.zip"])); out.append(Case("char-sweep", "f.sdist", ["a-1" + ch + ".tar.gz"]))
         out.append(Case("char-sweep", "f.sdist", ["a-1.zip" + ch])); out.append(Case("char-sweep", "f.sdist", ["a-1.tar.g" + ch]))
         out.append(Case("char-sweep", "f.tag", ["a" + ch + "B-c-d"])); out.append(Case("char-sweep", "f.tageq", ["A" + ch, "b", "c", "a" + ch.lower(), "B", "C"]))
+    # per-code-point sweep beyond the pool: samples of the Unicode categories + every boundary of the generated tables, in name / build / tag positions
+    pts = sorted(set(g.category_sample(rng, 40 if q else 600) + g.table_boundaries() + [rng.randrange(128, 0x110000) for _ in range(200 if q else 5000)]))
+    pts = [p for p in pts if p >= 128 and not 0xD800 <= p <= 0xDFFF]
+    if q: pts = [p for p in pts if rng.random() < 0.5]
+    for p in pts:
+        ch = chr(p)
+        out.append(Case("uni-sweep", "f.wheel", ["a" + ch + "-1-a-b-c.whl"])); out.append(Case("uni-sweep", "f.wheel", [ch + "A-1-a-b-c.whl"]))
+        out.append(Case("uni-sweep", "f.wheel", ["a-1-" + ch + "-a-b-c.whl"])); out.append(Case("uni-sweep", "f.wheel", ["a-1-7" + ch + "x-a-b-c.whl"]))
+        out.append(Case("uni-sweep", "f.wheel", ["a-1-a" + ch + "-B-c" + ch + ".whl"]))
+        out.append(Case("uni-sweep", "f.sdist", ["A" + ch + "-1.zip"]))
+        out.append(Case("uni-sweep", "f.tag", ["a" + ch + "B-c-d"])); out.append(Case("uni-sweep", "f.tageq", ["A" + ch, "b", "c", "a" + ch.lower(), "B", "C"]))
+        out.append(Case("uni-sweep", "f.tageq", ["aΣ" + ch, "b", "c", "aσ" + ch, "B", "C"]))
+        if rng.random() < 0.3: out.append(Case("law-tagstr", "law.f.tagstr", ["A" + ch, ch, "c" + ch], kind="law"))
+    out.append(Case("law-tables", "law.f.tables", [], kind="law"))
+    for fn in ["foo-1.0-7१x-py3-none-any.whl", "foo-1.0-१-py3-none-any.whl", "foo-1.0-007x-py3-none-any.whl", "foo-1.0-000-py3-none-any.whl", "foo-1.0-0१٣-py3-none-any.whl",
+               "É-1-a-b-c.whl", "aΣ-1-a-b-c.whl", "aΣ.b-1-a-b-c.whl", "Σ-1-Σ-aΣ-Σa.whl", "a-1-É-é-Ω.whl", "foo.bar-1.0-py3-none-any.whl", "._.-1.0-py3-none-any.whl",
+               "-1.0-py3-none-any.whl", "_-1.0-py3-none-any.whl", "foo-1.0-py3-none-any\n.whl", "foo-1.0--none-any.whl", "foo-1.0-py3..py2-none-any.whl", "中-1-a-b-c.whl",
+               "a-1-1ß-SS-ß-ẞ.whl", "a²-1-²-a-b-c.whl", "a-1-𝟗𝟗-a-b-c.whl"]:
+        out.append(Case("fixed-uni", "f.wheel", [fn]))
+    for fn in ["foo bar-1.0.tar.gz", "foo/../x-1.0.zip", "\n-1.tar.gz", "É-1.zip", "aΣ.b-1.zip", "aΣ-1.tar.gz", "Σ-1.zip", "ẞ_ǅ-1.zip"]:
+        out.append(Case("fixed-uni", "f.sdist", [fn]))
+    for a in [["É", "é", "Ω"], ["aΣ", "Σa", "aΣb"], ["ß", "SS", "ẞ"], ["İ", "K", "ǅ"], ["a b", "c\n", " "], ["", "", ""], ["A_b", "c+d", "e:f"]]:
+        out.append(Case("fixed-law", "law.f.tagstr", a, kind="law")); out.append(Case("fixed-uni", "f.tageq", a + [x.upper() for x in a]))
+        out.append(Case("fixed-uni", "f.tageq", a + [x.lower() for x in a])); out.append(Case("fixed-uni", "f.tag", ["-".join(a)])); out.append(Case("fixed-law", "law.f.tags", ["-".join(a)], kind="law"))
+    # candidate findings: generated only when the lead has registered them in known_findings.txt (otherwise they would be reported as violations)
+    reg = registered()
+    for _ in range(60 if q else 2000):
+        c = rand_wheel(rng); rest = "-".join([c[1]] + ([c[2]] if c[2] else []) + c[3:6]) + ".whl"
+        if "name-empty" in reg: out.append(Case("law-reject-name-empty", "law.f.reject", ["name-empty", rng.choice(["", "_", ".", "._.", "_._"]) + "-" + rest], kind="law"))
+        if "sdist-name" in reg: out.append(Case("law-reject-sdist-name", "law.f.reject", ["sdist-name", rng.choice(["foo bar", "a/b", "\n", "a\tb", "x!", "fo o", "(a)"]) + "-" + c[1] + rng.choice([".zip", ".tar.gz"])], kind="law"))
+        if "build-unicode-digit" in reg: out.append(Case("law-reject-build-unicode", "law.f.reject", ["build-unicode-digit", "-".join([g_escape(c[0], True), c[1], rng.choice(["१", "١x", "１2", "𝟗_"])] + c[3:6]) + ".whl"], kind="law"))
+        if "tagstr" in reg:
+            a = [rng.choice(PYS), rng.choice(ABIS), rng.choice(PLATS)]; a[rng.randrange(3)] += rng.choice([".x", "-x", ".", "-"])
+            out.append(Case("law-tagstr-sep", "law.f.tagstr", a, kind="law"))
     for t in ["py3-none-any", "a-b", "a-b-c-d", "", "--", "-", "---", "a.b-c.d-e.f", "A.a-b-c", "..-.-.", "py3-none-any\n", "İ-K-é", "a.A.a-b-c"]:
         out.append(Case("fixed", "f.tag", [t])); out.append(Case("fixed-law", "law.f.tags", [t], kind="law"))
     return out
@@ -173,12 +232,67 @@ def compare(case, impl, model):
     return None if impl == model else "implementation differs from model"
 
 
-def match_build_newline(case, impl, model):
-    """Proposed known finding (not registered): a build tag whose suffix contains a newline is accepted and silently truncated at the
-    newline, because the build-tag pattern is used with .match and '.' stops at a newline.
-    Instance = law.f.wheel case whose build argument contains a newline, answered with exactly the truncated-build complaint."""
-    return (case.cmd == "law.f.wheel" and len(case.args) == 7 and "\n" in case.args[2] and isinstance(impl, str) and impl.startswith("build (")
-            and repr(case.args[2].split("\n")[0][len(case.args[2]) - len(case.args[2].lstrip("0123456789")):]) in impl)
+# ---- candidate findings (none registered: the lines proposed for known_findings.txt are in CANDIDATES; registered() reads the file) ----
+def registered():
+    """Classes of candidate findings the lead has registered: the first argument of the witness of every C14 finding whose matcher is below."""
+    import core
+    cls = {"match_name_empty": "name-empty", "match_sdist_name": "sdist-name", "match_build_unicode_digit": "build-unicode-digit", "match_tagstr_sep": "tagstr"}
+    return {cls[f["matcher"]] for f in core.load_findings("C14") if f["matcher"] in cls}
+
+
+def match_name_empty(case, impl, model):
+    """A wheel filename whose project-name part is empty or made of '.' and '_' only is accepted (name '' or '-'), although no project name
+    escapes to it.  Instance = law.f.reject of class name-empty on such a name, answered with exactly the acceptance."""
+    return (case.cmd == "law.f.reject" and len(case.args) == 2 and case.args[0] == "name-empty" and set(case.args[1].split("-")[0]) <= set("._")
+            and "__" not in case.args[1].split("-")[0] and impl == "name-empty accepted: %r" % case.args[1])
+
+
+def match_sdist_name(case, impl, model):
+    """parse_sdist_filename performs no check of the name part at all.  Instance = law.f.reject of class sdist-name whose name part (before
+    the last dash) contains a character outside letters, digits, '.', '_', '-', answered with exactly the acceptance."""
+    import re
+    if not (case.cmd == "law.f.reject" and len(case.args) == 2 and case.args[0] == "sdist-name"): return False
+    stem = case.args[1][:-7] if case.args[1].endswith(".tar.gz") else case.args[1][:-4]
+    return re.fullmatch(r"[\w.-]*", stem.rpartition("-")[0]) is None and impl == "sdist-name accepted: %r" % case.args[1]
+
+
+def match_build_unicode_digit(case, impl, model):
+    """The build-tag pattern uses \\d without re.ASCII: a build tag starting with a non-ASCII decimal digit is accepted and the digit is
+    absorbed into the build number.  Instance = law.f.reject of class build-unicode-digit whose third dash part starts with such a digit."""
+    import unicodedata
+    if not (case.cmd == "law.f.reject" and len(case.args) == 2 and case.args[0] == "build-unicode-digit"): return False
+    parts = case.args[1][:-4].split("-")
+    return (len(parts) == 6 and parts[2] != "" and not parts[2][0].isascii() and unicodedata.category(parts[2][0]) == "Nd"
+            and impl == "build-unicode-digit accepted: %r" % case.args[1])
+
+
+def match_tagstr_sep(case, impl, model):
+    """Tag() does not validate its fields: with a '.' in a field parse_tag(str(t)) has several members, with a '-' it cannot be unpacked.
+    Instance = law.f.tagstr on a triple with '.' or '-' in a field, answered with the member-count complaint or the ValueError."""
+    if not (case.cmd == "law.f.tagstr" and len(case.args) == 3 and any("." in x or "-" in x for x in case.args)): return False
+    if any("-" in x for x in case.args): return impl == "!EXC:ValueError"
+    return isinstance(impl, str) and impl.startswith("parse_tag(str(t)) != {t} for ")
+
+
+def match_d10_build(case, impl, model):
+    """D10 at the wheel build tag: int() of more than 4300 digits raises a bare ValueError out of parse_wheel_filename."""
+    if case.cmd != "f.wheel" or impl != "!EXC:ValueError" or not case.args[0].endswith(".whl"): return False
+    parts = case.args[0][:-4].split("-")
+    return len(parts) == 6 and len(parts[2]) - len(parts[2].lstrip("0123456789")) > 4300
+
+
+CANDIDATES = {   # proposed lines for known_findings.txt (property=C14), witness + what fails; not registered by this module
+    "match_name_empty": ({"cmd": "law.f.reject", "args": ["name-empty", "._.-1.0-py3-none-any.whl"], "kind": "law"},
+                         "parse_wheel_filename accepts an empty or separator-only project-name part ('', '_', '._.'): returns the name '' / '-', which no project name escapes to"),
+    "match_sdist_name": ({"cmd": "law.f.reject", "args": ["sdist-name", "foo bar-1.0.tar.gz"], "kind": "law"},
+                         "parse_sdist_filename never checks the project-name part: 'foo bar-1.0.tar.gz' -> ('foo bar', 1.0), '\\n-1.tar.gz' -> ('\\n', 1)"),
+    "match_build_unicode_digit": ({"cmd": "law.f.reject", "args": ["build-unicode-digit", "foo-1.0-\u0967-py3-none-any.whl"], "kind": "law"},
+                                  "the build-tag pattern's \\d is not ASCII-only: 'foo-1.0-7\u0967x-...' has build (71, 'x'), 'foo-1.0-\u0967-...' has build (1, '')"),
+    "match_tagstr_sep": ({"cmd": "law.f.tagstr", "args": ["a.b", "c", "d"], "kind": "law"},
+                         "Tag() does not validate its fields: parse_tag(str(Tag('a.b','c','d'))) has two members, parse_tag(str(Tag('a-b','c','d'))) raises ValueError"),
+    "match_d10_build": ({"cmd": "f.wheel", "args": ["foo-1.0-" + "9" * 4301 + "-py3-none-any.whl"]},
+                        "D10 at the wheel build tag: int() beyond the digit limit raises a bare ValueError out of parse_wheel_filename"),
+}
 
 
 def nontrivial(c, i):
